@@ -216,6 +216,11 @@ def install_models(reg):
     em["os.path.abspath"] = lambda it, args, kw: do_abspath(it, path_arg(it, args[0]))
     em["os.path.basename"] = lambda it, args, kw: do_basename(it, path_arg(it, args[0]))
     em["os.path.dirname"] = lambda it, args, kw: VStr(uf("posix_dirname", StringS, StringS)(path_arg(it, args[0]).z), "str")
+    # os.path.split(p) == (dirname(p), basename(p)); unicodedata.normalize: an uninterpreted function of (form, string)
+    em["os.path.split"] = lambda it, args, kw: VTuple([
+        VStr(uf("posix_dirname", StringS, StringS)(path_arg(it, args[0]).z), "str"), do_basename(it, path_arg(it, args[0]))])
+    em["unicodedata.normalize"] = lambda it, args, kw: VStr(
+        uf("unicode_normalize", StringS, StringS, StringS)(it.force(args[0]).z, sview(it.force(args[1])).z), "str")
 
     def query(kind):
         def f(it, args, kw):
